@@ -40,17 +40,62 @@ fn pool2_plan(id: &'static str, rule: &'static str, quick: u64, thorough: u64, w
     }
 }
 
+const VAULT_REAL: [&str; 5] = [
+    "vault (real, from /repo)",
+    "vault_factory (real)",
+    "vault_router (real)",
+    "terraswap_token / cw20-base as LP and as vault asset (real)",
+    "borrower: harness contract executing generated adversary programs (stub by design)",
+];
+
+fn vault_part(quick: u64, thorough: u64) -> PlanPart {
+    PlanPart { scen: scen::<scen::vault::VaultScen>(), quick_runs: quick, thorough_runs: thorough }
+}
+
 pub fn all_ids() -> Vec<&'static str> {
-    vec!["C01", "C02", "C07", "C14", "C15"]
+    vec!["C01", "C02", "C05", "C06", "C07", "C14", "C15"]
 }
 
 pub fn plan_for(id: &str) -> Option<Plan> {
     const RULE: &str = "seeded swarm runs of POOL2: each run draws asset kinds, fee triple, magnitude class, users, op weights, fault switch and a history (<=200 steps) of provide/withdraw/swap/collect/set-fees/donate/round-trip/deposit-withdraw/router ops; a case counts as distinct non-trivial when a successful state-changing step leaves a not yet seen (reserves, LP supply, pending fees, LP balances, pool balances) state";
+    const VRULE: &str = "seeded swarm runs of VAULT: asset kind, fee triple, magnitude, users, op weights, fault switch and a history (<=200 steps) of deposit/withdraw/flash loan (direct or via router, with generated borrower programs up to nesting depth 3)/collect/set-fees/donate/deposit-withdraw; distinct = unseen (vault balance, pending fees, LP supply, LP balances) after a successful step";
     match id {
         "C01" => Some(pool2_plan("C01", RULE, 6000, 400_000, vec!["first_deposit_isqrt_boundary", "deposit_withdraw_completed", "withdraw_everything_withdrawable"])),
         "C02" => Some(pool2_plan("C02", RULE, 6000, 400_000, vec!["roundtrip_completed", "ratio_gt_1e18"])),
-        "C07" => Some(pool2_plan("C07", RULE, 6000, 300_000, vec!["collect_below_threshold", "collect_above_threshold", "collect_pending_zero"])),
-        "C14" => Some(pool2_plan("C14", RULE, 6000, 300_000, vec![])),
+        "C07" => {
+            let mut p = pool2_plan("C07", RULE, 5000, 250_000, vec!["collect_below_threshold", "collect_above_threshold", "collect_pending_zero", "collect_pending_nonzero"]);
+            p.parts.push(vault_part(2500, 120_000));
+            p.real.extend(VAULT_REAL);
+            Some(p)
+        }
+        "C14" => {
+            let mut p = pool2_plan("C14", RULE, 5000, 250_000, vec![]);
+            p.parts.push(vault_part(2500, 120_000));
+            p.real.extend(VAULT_REAL);
+            Some(p)
+        }
+        "C05" => Some(Plan {
+            property: "C05",
+            level: "exploration",
+            rule: VRULE,
+            parts: vec![vault_part(5000, 300_000)],
+            real: VAULT_REAL.to_vec(),
+            stubbed: STUBS.to_vec(),
+            assumptions: vec!["sampled histories, not all histories", "cw-multi-test executes messages, sub-messages and rollbacks like wasmd"],
+            want_probes: vec!["deposit_withdraw_completed", "nested_loan_same_vault", "first_deposit_done"],
+            exhaustive: false,
+        }),
+        "C06" => Some(Plan {
+            property: "C06",
+            level: "fault_enumeration",
+            rule: "borrower programs over the alphabet {repay exact, repay-1, repay+7, nothing, fail, deposit, withdraw shares, collect fees, nested loan (same / other vault)}: ALL programs of nesting depth <=2 and length <=2, all depth-1 programs of length 3 and all depth-1 length<=2 router payloads are enumerated for a native and a cw20 vault (first enum_runs() run indices); further runs sample depth-3 programs after random deposit/withdraw/collect/fee-change prefixes with injected sub-call and bank faults; distinct = distinct (balance, pending, LP supply, LP balances) states after a successful loan",
+            parts: vec![vault_part(scen::vault::enum_runs() + 1500, scen::vault::enum_runs() + 150_000)],
+            real: VAULT_REAL.to_vec(),
+            stubbed: STUBS.to_vec(),
+            assumptions: vec!["program space exhaustive only within the stated alphabet, depth and length", "loan amount fixed to a third of the vault backing in the enumeration; other amounts are sampled"],
+            want_probes: vec!["exact_repay_ok", "minus1_refused", "nested_loan_same_vault", "router_loan_exact_accounting", "enumerated_program"],
+            exhaustive: true,
+        }),
         "C15" => Some(pool2_plan("C15", RULE, 6000, 300_000, vec!["swap_rejected_for_slippage", "deposit_rejected_for_slippage", "router_rejected_min_receive", "min_receive_receiver_had_balance"])),
         _ => None,
     }
